@@ -448,7 +448,12 @@ def table_change_phase(ctx, code):
                b'\x01\x2b\x00\x04\x02\x01' + bytes([code, 1]) + b'\x01',
                b'\x29\x00\x00\x02' + bytes([code, 0]) + b'\x2a\x00\x01',
                b'\x3d\x00\x02' + bytes([code, 3]) + b'\x00\x02'
-               + bytes([code, 1])]
+               + bytes([code, 1]),
+               # operand bytes past 127 (the NOP reads them signed, the
+               # forked op's own handlers unsigned)
+               bytes([code, 128]), bytes([code, 200]),
+               b'\x01\x2b\x00\x02' + bytes([code, 255]),
+               b'\x29\x00\x00\x02' + bytes([code, 129]) + b'\x2a\x00']
     before = []
     for t in targets:
         before.append(parsing.decompile_script(t))
